@@ -44,23 +44,30 @@ theorem legacy_proposals :
     marked "ba__supp_mark__r".toList = true ∧
     proposals [("ba__supp_mark__r".toList, ()), ("bar".toList, ())] = ["bar".toList] := by decide
 
-/-! ## the `from` branch: open defect -/
+/-! ## the legacy `from` branch (before ab8463e): `line.lstrip().startswith('from ') and ' import ' not in line` -/
 
 /-- `from os import(pa|` (valid Python: `from os import(path)`) is still in the `from` branch, because
     `' import '` with both spaces does not occur; the prefix is `import(pa`, not `pa` -/
 theorem from_paren :
-    fromBranch "from os import(pa".toList = true ∧
-    assistPrefix asciiWord "from os import(pa".toList = "import(pa".toList ∧
+    fromBranchLegacy "from os import(pa".toList = true ∧
+    assistPrefixLegacy asciiWord "from os import(pa".toList = "import(pa".toList ∧
+    assistPrefix asciiWord "from os import(pa".toList = "pa".toList ∧
     identSuffix asciiWord "from os import(pa".toList = "pa".toList := by decide
 
 /-- the same with a tab after `import` -/
 theorem from_tab :
-    fromBranch "from os import\tpa".toList = true ∧
-    assistPrefix asciiWord "from os import\tpa".toList = "import\tpa".toList ∧
+    fromBranchLegacy "from os import\tpa".toList = true ∧
+    assistPrefixLegacy asciiWord "from os import\tpa".toList = "import\tpa".toList ∧
+    assistPrefix asciiWord "from os import\tpa".toList = "pa".toList ∧
     identSuffix asciiWord "from os import\tpa".toList = "pa".toList := by decide
 
-/-- the full `from`-branch statement is false of the code -/
-theorem C12_from_false : ¬ SuppModel.Props.C12.C12_from_stmt := by
+/-- the full `from`-branch statement for the legacy branch -/
+def C12_from_legacy_stmt : Prop :=
+  ∀ (isWord : Char → Bool) (line : Str), isWord ' ' = false → isWord '.' = false →
+    fromBranchLegacy line = true → fromPrefixLegacy line = identSuffix isWord line
+
+/-- ... was false of the code -/
+theorem C12_from_legacy_false : ¬ C12_from_legacy_stmt := by
   intro h
   have := h asciiWord "from os import(pa".toList (by decide) (by decide) (by decide)
   revert this
@@ -68,7 +75,8 @@ theorem C12_from_false : ¬ SuppModel.Props.C12.C12_from_stmt := by
 
 /-- whereas the well-formed case is fine -/
 theorem from_ok :
-    fromBranch "from os.pa".toList = true ∧
+    fromBranchLegacy "from os.pa".toList = true ∧
+    assistPrefixLegacy asciiWord "from os.pa".toList = "pa".toList ∧
     assistPrefix asciiWord "from os.pa".toList = "pa".toList ∧
     identSuffix asciiWord "from os.pa".toList = "pa".toList := by decide
 
